@@ -27,6 +27,12 @@ type coreOp struct {
 	TS  uint32 `json:"ts,omitempty"`
 	Len int    `json:"len,omitempty"`
 	N   uint32 `json:"n,omitempty"`
+	// header variety (rtp): irrelevant to the specification - the octet count is the sum of
+	// len(payload), the payload slice never contains the padding - but not to the code
+	Pad    uint8 `json:"pad,omitempty"`    // Padding bit set, PaddingSize = Pad
+	Marker bool  `json:"marker,omitempty"`
+	CSRC   int   `json:"csrc,omitempty"`   // number of CSRCs
+	Ext    bool  `json:"ext,omitempty"`    // one-byte header extension present
 	// implementation outputs (rep)
 	NTP uint64 `json:"ntp,omitempty"`
 	RTP uint32 `json:"rtp,omitempty"`
@@ -42,13 +48,49 @@ type coreCase struct {
 
 var payloadBuf = make([]byte, 70000)
 
+// mkHeader builds the RTP header of a send with the requested variety.
+func mkHeader(ssrc uint32, seq uint16, ts uint32, pad uint8, marker bool, csrc int, ext bool) *rtp.Header {
+	h := &rtp.Header{Version: 2, SSRC: ssrc, SequenceNumber: seq, Timestamp: ts, Marker: marker}
+	if pad > 0 {
+		h.Padding = true
+		h.PaddingSize = pad
+	}
+	for i := 0; i < csrc; i++ {
+		h.CSRC = append(h.CSRC, uint32(0x1000+i))
+	}
+	if ext {
+		h.Extension = true
+		h.ExtensionProfile = 0xBEDE
+		_ = h.SetExtension(1, []byte{0xAA, 0xBB})
+	}
+
+	return h
+}
+
+// variety draws header variety for one send: padding (1..255), marker, CSRCs, extension.
+func variety(r *rand.Rand) (pad uint8, marker bool, csrc int, ext bool) {
+	if r.Intn(4) == 0 {
+		pad = uint8(1 + r.Intn(255))
+		if r.Intn(4) == 0 {
+			pad = []uint8{1, 255, 4}[r.Intn(3)]
+		}
+	}
+	marker = r.Intn(5) == 0
+	if r.Intn(6) == 0 {
+		csrc = 1 + r.Intn(15)
+	}
+	ext = r.Intn(6) == 0
+
+	return
+}
+
 func runCore(c *coreCase) {
 	s := report.NewVerifSenderStream(0x1234, c.Rate, c.UL)
 	for i := range c.Ops {
 		op := &c.Ops[i]
 		switch op.K {
 		case "rtp":
-			s.ProcessRTP(time.Unix(0, op.Now), &rtp.Header{SequenceNumber: op.Seq, Timestamp: op.TS}, payloadBuf[:op.Len])
+			s.ProcessRTP(time.Unix(0, op.Now), mkHeader(0x1234, op.Seq, op.TS, op.Pad, op.Marker, op.CSRC, op.Ext), payloadBuf[:op.Len])
 		case "adv":
 			s.AdvancePacketCount(op.N)
 		case "advreal":
@@ -387,6 +429,57 @@ func genCountWrapReal(r *rand.Rand) (*coreCase, []string) {
 	return c, []string{"count-wrap", "count-wrap-real-sends"}
 }
 
+// decorateCore / decorateAPI give every send header variety (padding bit with PaddingSize
+// 1..255, marker, CSRCs, header extension) and name the buckets that occur.
+func decorateCore(r *rand.Rand, c *coreCase, b []string) []string {
+	for i := range c.Ops {
+		op := &c.Ops[i]
+		if op.K != "rtp" {
+			continue
+		}
+		op.Pad, op.Marker, op.CSRC, op.Ext = variety(r)
+		b = varietyBuckets(b, op.Pad, op.Len, op.CSRC, op.Ext, op.Marker)
+	}
+
+	return dedup(b)
+}
+
+func decorateAPI(r *rand.Rand, c *apiCase, b []string) []string {
+	for i := range c.Ops {
+		op := &c.Ops[i]
+		if op.K != "write" {
+			continue
+		}
+		op.Pad, op.Marker, op.CSRC, op.Ext = variety(r)
+		b = varietyBuckets(b, op.Pad, op.Len, op.CSRC, op.Ext, op.Marker)
+	}
+
+	return dedup(b)
+}
+
+func varietyBuckets(b []string, pad uint8, ln, csrc int, ext, marker bool) []string {
+	if pad > 0 {
+		b = append(b, "padding")
+		if ln > 0 {
+			b = append(b, "padding-with-payload")
+		}
+		if int(pad) > ln {
+			b = append(b, "padding-larger-than-payload")
+		}
+	}
+	if csrc > 0 {
+		b = append(b, "csrc")
+	}
+	if ext {
+		b = append(b, "header-extension")
+	}
+	if marker {
+		b = append(b, "marker")
+	}
+
+	return b
+}
+
 func dedup(b []string) []string {
 	m := map[string]bool{}
 	out := b[:0]
@@ -418,6 +511,10 @@ type apiOp struct {
 	Seq  uint16   `json:"seq,omitempty"`
 	TS   uint32   `json:"ts,omitempty"`
 	Len  int      `json:"len,omitempty"`
+	Pad    uint8  `json:"pad,omitempty"`
+	Marker bool   `json:"marker,omitempty"`
+	CSRC   int    `json:"csrc,omitempty"`
+	Ext    bool   `json:"ext,omitempty"`
 	Reps []apiRep `json:"reps,omitempty"`
 }
 
@@ -490,7 +587,7 @@ func runAPI(c *apiCase) error {
 		case "write":
 			if w, ok := writers[op.SSRC]; ok {
 				nowNs.Store(op.Now)
-				if _, err := w.Write(&rtp.Header{SSRC: op.SSRC, SequenceNumber: op.Seq, Timestamp: op.TS},
+				if _, err := w.Write(mkHeader(op.SSRC, op.Seq, op.TS, op.Pad, op.Marker, op.CSRC, op.Ext),
 					payloadBuf[:op.Len], nil); err != nil {
 					return err
 				}
@@ -679,6 +776,7 @@ func main() {
 		} else {
 			c, b = genCore(r)
 		}
+		b = decorateCore(r, c, b)
 		runCore(c)
 		core.Cases = append(core.Cases, c.toCase(b...))
 	}
@@ -691,6 +789,7 @@ func main() {
 	napi := o.Scale(400, 4000)
 	for i := 0; i < napi; i++ {
 		c, b := genAPI(r)
+		b = decorateAPI(r, c, b)
 		if err := runAPI(c); err != nil {
 			fails = append(fails, cq.ImplFailure{Kind: "api-run", Detail: err.Error(), Case: c})
 
